@@ -9,7 +9,7 @@ def run(ctx):
         pairs = [c for c in cases if c["kind"] == "pair"]
         cases = [c for c in cases if c["kind"] != "pair"] + ctx.rng.sample(pairs, 600)
     ctx.exhaustive = not ctx.quick()
-    ctx.bounds = {"quick": "all 80 vocabulary values (10 bases x dots 0..4, triplet/quintuplet/septuplet); 10 perturbations within 1% of every undotted / single-dotted value; 600 sampled ordered pairs for add/subtract; beat units -8..300, powers of two to 4096, 12 float units; counts -3..24 x 14 units",
+    ctx.bounds = {"quick": "all 80 vocabulary values (10 bases x dots 0..4, triplet/quintuplet/septuplet); 10 perturbations within 1% of every undotted / single-dotted value; 600 sampled ordered pairs for add/subtract; beat units -8..300, powers of two to 4096, 21 float units (1.0 and every power of two to 128.0 among them); counts -3..24 x 14 units",
                   "thorough": "all 6400 ordered pairs; beat units up to 3000"}[t]
     ctx.rule = ("TLC-enumerated (Gen_C09); values are built with the library's own constructors from the descriptor; distinct = distinct (operation, arguments); "
                 "non-trivial = dotted/tuplet/perturbed value, or a beat unit that is not a power of two, or a non-positive count")
